@@ -248,7 +248,10 @@ def main(argv):
     def gen_ops(rng, n):
         if HUNG:
             return []          # a run already failed to terminate: no point in searching further
-        ops = [LP.LOOPS['panoc']['gen_run'](rng, solver='panoc', nanat=0).line() for _ in range(n)]
+        first = not COUNTS.get('_gen_calls')
+        bump('_gen_calls')
+        ops = (CORPUS if first else []) + \
+            [LP.LOOPS['panoc']['gen_run'](rng, solver='panoc', nanat=0).line() for _ in range(n)]
         if exe:
             ops += sweep_ops(rng, exe, 8 if tier == 'quick' else 60)
         ops, _, hung = LP.prescreen(exe, ops)
@@ -272,7 +275,7 @@ def main(argv):
                        'Alpaqa/Props/C06_Panoc.lean', 'Alpaqa/Props/C03.lean',
                        'Alpaqa/Proofs/PanocLoopExample.lean'],
         harness_name='solvers', harness_sources=[], harness_builder=lambda: (exe, log),
-        gen_ops=gen_ops, monitor=monitor, nontrivial=nontrivial, extra_stage=extra, corpus=CORPUS,
+        gen_ops=gen_ops, monitor=monitor, nontrivial=nontrivial, extra_stage=extra,
         driver_input=lambda o, h: o + ' || ' + S.events_only(h), impl_view=S.strip_events,
         n_quick=150, n_thorough=3000,
         trusted_base=[
